@@ -109,7 +109,7 @@ def run(ctx):
                rule="R1: spec/ConnImpl.tla exhaustively for 3 chunks (good / undecodable) x 2 CloseNotify requests x all end events, every interleaving of reader, copier and environment; "
                     "R2: every ordering up to the bound of {good message, message whose handler requests CloseNotify, two messages in one fragment with a request in between, message halves, request from another goroutine} "
                     "then one terminator {undecodable, undecodable + trailing fragment, peer EOF, read error, local Close} then up to two late requests (spec/ConnGen.tla); each replayed on diam.NewConn / an accepted server connection "
-                    "over memnet, stepping on quiescence; plus sm.Client with watchdog terminated in four ways. every schedule has a request and a termination (non-trivial); distinct by (path, schedule) Since extended: terminators handler panic (with / without a request first), peer close while a handler runs, last message in the same read as the close; the first request after a termination is made while finish() holds the reader lock (hook finish.sr) and must return; a server with ReadTimeout and an idle peer; an answering handler whose first write attempt fails temporarily (mw); a message pipelined behind a running handler when the peer closes (heofd); Close while a Write is blocked (lclosew); a mux whose error reports nobody reads.",
+                    "over memnet, stepping on quiescence; plus sm.Client with watchdog terminated in four ways. every schedule has a request and a termination (non-trivial); distinct by (path, schedule) Since extended: terminators handler panic (with / without a request first), peer close while a handler runs, last message in the same read as the close; the first request after a termination is made while finish() holds the reader lock (hook finish.sr) and must return; a server with ReadTimeout and an idle peer; an answering handler whose first write attempt fails temporarily (mw); a message pipelined behind a running handler when the peer closes (heofd); Close while a Write is blocked (lclosew); a mux whose error reports nobody reads; multi-stream associations; TLS connections whose handshake fails.",
                samples=[dict(via=l["via"], sched=l["sched"], steps=l["steps"], goroutines=l["goroutines"]) for l in lines[10:len(lines):max(1, len(lines) // 3)]][:3],
                exhaustive=True, r1_states=r1["distinct"], rejected=len(bad), impl_conformance=conf, known_finding_hits={k: n for k, (n, _) in v.hits.items()})
     rc = v.finish()
